@@ -254,7 +254,7 @@ class SkeletonChecker:
     def __init__(self, native, max_steps=400, max_paths=256, pattern_limit=12, solver_timeout_ms=10000, skeleton_budget_s=40):
         self.native = native
         self.skeleton_budget_s = skeleton_budget_s
-        self.max_witnesses = 64
+        self.max_witnesses = 96
         self.deadline = None
         self.max_steps = max_steps
         self.max_paths = max_paths
@@ -366,6 +366,25 @@ class SkeletonChecker:
                 exp = ("ok", concretize_structure(vm_out[1], mdl), render(vm_out[2], mdl)) if vm_out[0] == "ok" \
                     else ("err", vm_out[1], render(vm_out[2], mdl))
                 witnesses.append((model_source(mdl), exp))
+                # further witnesses of the same path at values where implementations like to special-case: every hole a power
+                # of two / one below a power of two / tiny (each only if the path admits it); seen sources are not repeated
+                if hv and len(witnesses) < self.max_witnesses:
+                    one = z3.BitVecVal(1, W)
+                    biases = [z3.And(*[z3.And(h >= 2, (h & (h - one)) == 0) for h in hv]),
+                              z3.And(*[z3.And(h >= 3, ((h + one) & h) == 0) for h in hv]),
+                              z3.And(*[h <= 4 for h in hv])]
+                    seen_src = {witnesses[-1][0]}
+                    for b in biases:
+                        if len(witnesses) >= self.max_witnesses or eng.check(b) != z3.sat:
+                            continue
+                        m2 = eng.solver.model()
+                        src2 = model_source(m2)
+                        if src2 in seen_src:
+                            continue
+                        seen_src.add(src2)
+                        exp2 = ("ok", concretize_structure(vm_out[1], m2), render(vm_out[2], m2)) if vm_out[0] == "ok" \
+                            else ("err", vm_out[1], render(vm_out[2], m2))
+                        witnesses.append((src2, exp2))
             # reference under the machine's path condition
             ast = json.loads(json.dumps(d["ast"]))
             for ref_out, _ in eng.explore(lambda c: Ref(c, holes, fuel=self.max_steps * 12).run_program(ast), 16):
